@@ -1,6 +1,6 @@
 (* sx glue for Model/World.v: decode ops and queries, run a history, one reply per item. *)
 From Coq Require Import ZArith List Bool.
-From V Require Import Result LazyTree World.
+From V Require Import Result LazyTree World Aggregates.
 Import ListNotations.
 Open Scope Z_scope.
 
@@ -145,6 +145,7 @@ Definition run_item (w : world) (it : sx) : world * sx :=
     (w, L [A 0; L (map (fun n => L [A n; sx_opt (par w n); sx_zs (kids w n)]) (un_zs ns))])
   | L [A 45; A ir] => (w, L [A 0; L (map (fun p => L [A (fst p); A (snd p)]) (cache w ir))])
   | L [A 46; A bi] => (w, L [A 0; L (map (fun p => L [A (fst p); A (snd p)]) (symx w bi))])
+  | L [A 48; A scope; A a] => (w, L [A 0; sx_zs (aggregate w scope a)])
   | L [A 47; ns] =>
     (w, L [A 0; L (map (fun n => L [A n; sx_opt (ir_of w n); sx_opt (module_of w n); sx_opt (section_of w n)]) (un_zs ns))])
   | _ =>
